@@ -10,5 +10,9 @@ SPECS = [
                 # round 3: the branching reference kernel and the two argsort-based kernels wired into log_symm / pow_symm
                 ('_relative_log_difference', ['S', 'S']),
                 ('_log_relative_difference', ['S', 'S']),
-                ('_pow_relative_difference', ['S', 'S', 'S'])]),
+                ('_pow_relative_difference', ['S', 'S', 'S']),
+                # round 3: the first stage of eigen_sym33_non_unit -- mean, deviatoric invariants c2, c3, the trisection argument rr and the
+                # closed-form trigonometric root eval2 (with the Pade kernel) -- translated as a prefix of the routine's body
+                ('eigen_sym33_non_unit', ['M33'], dict(coq_name='eig_trig_stage',
+                                                       prefix=dict(upto='eval2', returns=['c1', 'c2', 'c3', 'rr', 'arg', 'eval2'])))]),
 ]
